@@ -10,6 +10,7 @@ import Driver.Chain
 import Driver.Valset
 import Driver.Authz
 import Driver.RepStake
+import Driver.Slash
 import Driver.Oracle
 import Driver.Claim
 open Driver
@@ -34,6 +35,7 @@ def dispatch (fam : String) : Option (List String → String → Option Res) :=
   | "valsetchain" => some runValsetChain
   | "authz" => some runAuthz
   | "repstake" => some runRepStake
+  | "slash" => some runSlash
   | "claim" => some runClaim
   | "oracle" => some runOracle
   | "oracle7" => some runOracle7
